@@ -335,7 +335,9 @@ class Runner:
                 except Exception:
                     pass
             if not nxt:
-                return (i, first_fail[0] + ("|log_near_pi" if self.tainted else ""), first_fail[1], first_fail[2],
+                tiny = any(np.any((np.abs(v) > 0) & (np.abs(v) < 1e-6)) for v in self.ik_ret.values())
+                return (i, first_fail[0] + ("|log_near_pi" if self.tainted else "|exp_cutoff" if tiny else ""),
+                        first_fail[1], first_fail[2],
                         [{k: v for k, v in r.items() if k != "st"} for r in ops[:i + 1]])
             cands = nxt
             if self.stop:
